@@ -9,7 +9,8 @@ for all action lists (arbitrary segments) and all actions.
  * InterruptableActionNode.convert  - the interrupting action (yield) alone on the first fall-through, the following actions on the
                                       second, nothing consumed; without successor the machine ends in a fresh accepting state;
  * MatchNode._adopt_actions         - each adopted action is attached to the match exactly once, in order (per-iteration);
- * DFTransition.copy                - same symbols/actions/target/kind in lists of its own (no aliasing with the original).
+ * DFTransition.copy                - same symbols/actions/target/kind in lists of its own (no aliasing with the original);
+ * DFTransition.attach              - present ++ new (new ++ present with prepend), in order, nothing else changes, returns self.
 The literal/end builders (DirectMatch, CaseDirectMatch, EndMatch) are proved in leaf_proofs.py and counted here as well.
 append_after and the composite converts are NOT reached (aliased graphs of unbounded shape): they stay under the run-time contracts."""
 import ast
@@ -26,10 +27,12 @@ def prove(rep, nmfu, program, prop="C01"):
     old_ms = getattr(Engine, "mutable_sets", False)
     Engine.mutable_sets = True
     try:
-        nob += _attach(rep, nmfu, program, prop)
-        nob += _adoption(rep, nmfu, program, prop)
-        nob += _interruptable(rep, nmfu, program, prop)
-        nob += _transition_copy(rep, nmfu, program, prop)
+        # each part on its own: a construct outside the modelled subset in one function must not drop the proofs of the others
+        for part in (_attach, _adoption, _interruptable, _transition_copy, _transition_attach):
+            try:
+                nob += part(rep, nmfu, program, prop)
+            except (Unsupported, NeedFork, KeyError, AttributeError) as e:
+                rep.unavailable(f"{prop}/pyvc/front-end/{part.__name__.strip('_')}", f"outside the modelled Python subset: {type(e).__name__}: {e}")
     finally:
         Engine.mutable_sets = old_ms
     return nob
@@ -200,6 +203,37 @@ def _transition_copy(rep, nmfu, program, prop):
                 cl.structural("own-symbol-list", f.get("on_values") is not g["on_values"], "the copy shares its on_values list with the original: DFState.transition edits it in place")
                 cl.structural("own-action-list", f.get("actions") is not g["actions"], "the copy shares its actions list with the original: an attach() to one reaches the other")
                 cl.structural("same-target-and-kind", f.get("target") is tgt and f.get("is_fallthrough") is ft and f.get("error_handling") is eh, "target / fall-through / error-handling flag differ")
+                n += cl.n
+    return n
+
+
+def _transition_attach(rep, nmfu, program, prop):
+    """DFTransition.attach: the given actions go behind the present ones (in front with prepend), in the order given, nothing is
+    lost or duplicated, and nothing else of the transition changes; the transition itself is returned (the builders chain on it)."""
+    fnq = "DFTransition.attach"
+    rep.fn(fnq)
+    n = 0
+    for prepend in (False, True):
+        for k in (0, 1, 2):
+            def body(eng, prepend=prepend, k=k):
+                O, A = Seg("on_values"), Seg("actions")
+                new = [SObj(nmfu.CallHook, {"name": f"new{i}"}) for i in range(k)]
+                tgt = SObj(nmfu.DFState, {"transitions": HList([])})
+                me = SObj(nmfu.DFTransition, {"on_values": HList([O]), "actions": HList([A]), "target": tgt, "is_fallthrough": False, "error_handling": False})
+                v, _ = call_function(eng, fnq, new, {"prepend": prepend}, self_obj=me)
+                return (v, me, O, A, tgt, new), {}
+            for ri, r in enumerate(explore(program, body, contracts=DEBUG_CONTRACTS)):
+                cl = Clauses(rep, prop, fnq, f"prepend={prepend}.k={k}.{ri}", r.pc, None)
+                if r.exits or r.dead is not False:
+                    cl.fail("no-exception", f"raises {[e.exc_cls.__name__ for e in r.exits]}")
+                    n += cl.n
+                    continue
+                v, me, O, A, tgt, new = r.value
+                f = me.fields
+                want = (new + [A]) if prepend else ([A] + new)
+                cl.structural("actions-in-order", _same(f["actions"], want), f"actions {_names(_items(f['actions']))}, expected {'new ++ present' if prepend else 'present ++ new'}")
+                cl.structural("frame", _same(f["on_values"], [O]) and f["target"] is tgt and f["is_fallthrough"] is False and f["error_handling"] is False, "symbols / target / kind changed")
+                cl.structural("returns-self", v is me, "attach must return the transition")
                 n += cl.n
     return n
 
